@@ -29,7 +29,9 @@ public:
             // doubling phase
             for (auto iters = 0; iters < m_max_iters; ++iters)
             {
-                if (t /= m_gamma, fx = function.vgrad(x = state.x() - t * d); fx >= state.fx() - t * df)
+                // NB: stop doubling the step also when reaching a point with a non-finite function value!
+                if (t /= m_gamma, fx = function.vgrad(x = state.x() - t * d);
+                    !std::isfinite(fx) || fx >= state.fx() - t * df)
                 {
                     t *= m_gamma;
                     state.update(x = state.x() - t * d);
